@@ -93,6 +93,16 @@ def proj_adapt(kind):
     return f
 
 
+def proj_chain_reg(line):
+    """chain mode for C14: whether each drain ended Pending or with the end of the stream; what the
+    stages emitted is C12"""
+    out = []
+    for ev in line.split(" ; "):
+        first = ev.split(" ")[0]
+        out.append(first if first in ("P", "N", "PANIC") else ".")
+    return " ; ".join(out)
+
+
 def proj_none(line):
     """C13: the property relates the two container flavours of the *implementation* to each other
     (oracle ok:samediffs / ok:nonemptybatch on the same history); the poll-loop / container model the
@@ -218,6 +228,14 @@ def c15_streams(tier, rng):
     ]
 
 
+def e2e_nontriv(case, obs):
+    return _re.search(r" p=[1-9]", obs) is not None
+
+
+def e2e_hist(case, obs):
+    return ">".join(":".join(st.split(":")[:2]) for st in case.split(" :: ")[0].split(" | ")[1:])
+
+
 def c13_streams(tier, rng):
     q = tier == "quick"
     ml, mp = (3, 4) if q else (4, 6)
@@ -235,6 +253,10 @@ def c13_streams(tier, rng):
         Stream("random-b", "adapt", gens.rand_adapt(rng, ALL_KINDS, n // 2, bats=("b",)), adapt_nontriv, False,
                "%d seeded random batched histories incl. dynamic limits (one batch per limit change; no empty batch)" % (n // 2),
                adapt_hist, oracles={"nonemptybatch"}, project=proj_none),
+        Stream("end-to-end", "e2e", gens.e2e_cases(rng, 6000 if q else 200000), e2e_nontriv, False,
+               "%d seeded random histories on a real ObservableVector (capacity 1..16, so lag occurs) with a plain and a batched subscriber carrying the same stack of 1-2 adapters (head/tail/skip static, with initial value, dynamic; filter; filter_map; sort first): mutators, multi-operation transactions (commit, rollback, drop), limit changes, drains; after every batch the batched view must be the stack's view of a state the vector had between top-level operations, at Pending both views equal the stack's view of the contents, no empty batch, fixed-parameter stacks deliver the same diffs on both flavours unless one lagged" % (6000 if q else 200000),
+               e2e_hist, oracles={"e2eview", "e2estate", "e2eapp", "e2enopanic", "e2einit", "nonemptybatch", "samediffs"},
+               project=proj_none),
     ]
 
 
@@ -249,6 +271,10 @@ def c14_streams(tier, rng):
         Stream("random", "adapt", gens.rand_adapt(rng, ALL_KINDS, n), adapt_nontriv, False,
                "%d seeded random histories with single polls interleaved after arbitrary events, ends of source / limit stream" % n,
                adapt_hist, oracles={"reg"}, project=proj_adapt("trace")),
+        Stream("chains", "chain", gens.chain_cases(rng, True, 60 if q else 1500, 4 if q else 30),
+               lambda c, o: " ok:reg=" in o, False,
+               "two- and three-stage chains (C12's generator: head/tail/skip in every flavour incl. by-itself hand-over, filter, filter_map; unbatched and batched): after every full drain that ends Pending, the source stream and every limit/count stream of the stack must hold the waker of that poll (will_wake)",
+               chain_hist, oracles={"reg"}, project=proj_chain_reg),
     ]
 
 
@@ -278,10 +304,10 @@ PROPS.update({
                 level_text="Coq theorems generic in the adapter step function: the unbatched poll loop delivers exactly the next pending diff per poll and the batched loop a non-empty prefix ending at a source-batch boundary, both measured against the same reference (flat_map of the step function over all queued source diffs), so the two flavours deliver the same diffs in the same order; empty batches are never emitted; a limit change yields exactly one batch. Tied to ops.rs and the five poll loops by running every history on both flavours of the real adapters.",
                 level_note="Trusted: as C09; the theorem is about the poll-loop/container model of ops.rs."),
     "C14": dict(streams=c14_streams, trusted=ADAPT_TRUST + ["Waker identity checked with Waker::will_wake on the implementation side"],
-                assumptions=["an input stream that answers Pending keeps the waker it was polled with (Stream contract; C02 for Subscriber, tokio broadcast for the vector subscriber)"],
-                strength="partial: adapters' poll loops proved; the source stream's waiter list (tokio broadcast, ReusableBoxFuture) is modelled in C05-C08, not re-proved here",
-                level_text="Coq theorems on the poll-loop model, generic in the adapter: a poll answers Pending only after, in that very call, the inner stream answered Pending and the limit stream answered Pending or its terminal end, with nothing deliverable left (ready buffer and queues empty); and a drained adapter stays Pending until an input has something. Tied to the five poll_next loops by comparing the complete poll trace of both inputs on every poll and checking will_wake on every stored waker.",
-                level_note="Trusted: as C09, plus the Stream contract of the inputs."),
+                assumptions=["a leaf stream (the vector subscriber's stream, a limit/count stream) that answers Pending keeps the waker it was polled with (Stream contract; C02 for Subscriber, tokio broadcast for the vector subscriber)"],
+                strength="adapters alone and chained: proved for stacks of any height; the leaf streams' waiter lists (tokio broadcast, ReusableBoxFuture) are modelled in C05-C08, not re-proved here",
+                level_text="Coq theorems on the poll-loop model, generic in the adapter: a poll answers Pending only after, in that very call, the inner stream answered Pending and the limit stream answered Pending or its terminal end, with nothing deliverable left (ready buffer and queues empty); and a drained adapter stays Pending until an input has something. For chains (ChainPoll.v: the loop over an arbitrary inner stream, stacks as lists of stages of any state type): a Pending answer of the top of a stack of any height leaves the waker registered with the source and with every limit/count stream of the stack; a stack with nothing deliverable stays Pending and unchanged; over a scripted queue the generic loop equals the scripted loop that the correspondence check compares with the five poll_next implementations call by call; the model's fuel/depth bounds never change an answer. Tied to the crate by comparing the complete poll trace of both inputs on every poll, checking will_wake on every stored waker, and - for chains of 2-3 real adapters - checking after every drain that ends Pending that every leaf holds the waker of that poll.",
+                level_note="Trusted: as C09, plus the Stream contract of the leaves. The unbatched loop is the one modelled generically; the batched loop differs in the item type only and is covered by the scripted-loop theorems."),
 })
 
 
@@ -298,7 +324,10 @@ def c12_streams(tier, rng):
     orc = {"stage0", "stage1", "stage2", "nopanic"}
     return [Stream("chains", "chain", cases, lambda c, o: _re.search(r" t\d=[^- ]", o) is not None, False,
                    "all two-stage chains over {head,tail,skip} x {static p in 0/2/5, dyninit, dynamic; handed over as (values, stream) or - for dynamic, static 2, dyninit 2 - as the adapter itself} + filter/filter_map (4 masks) and %d seeded three-stage chains, %d random histories each (source diffs, batches, limit changes of any stage, full drains), per-stage taps; sort is exercised as a single stage in C11 only" % (ntr, per),
-                   chain_hist, oracles=orc)]
+                   chain_hist, oracles=orc),
+            Stream("end-to-end", "e2e", gens.e2e_cases(rng, 3000 if q else 100000), e2e_nontriv, False,
+                   "%d seeded random histories of 1-2 stage stacks on a real ObservableVector subscriber (plain and batched), see C13; here: rebuilt view = stack's view of the vector at every Pending, every diff applicable, no panic" % (3000 if q else 100000),
+                   e2e_hist, oracles={"e2eview", "e2eapp", "e2enopanic", "e2einit"}, project=proj_none)]
 
 
 PROPS["C12"] = dict(
@@ -306,7 +335,7 @@ PROPS["C12"] = dict(
     assumptions=["every stage satisfies its one-step theorem (C09-C11)", "known finding tail_shrink_over_len excluded (a chain is claimed only while no stage is in a recorded class)",
                  "hand-over by the adapter itself happens at a quiescent point (at construction)"],
     strength="full given C09-C11; inherits their known-finding classes",
-    level_text="Coq theorems: if two stages satisfy the one-step correctness statement then so does their composition (the lower stage's guarantee that every emitted diff is applicable to its view is the upper stage's input guard), for limit changes of either stage, for chains of any length by iteration (stated for three), lifted to whole histories; and into_parts of Head/Tail/Skip returns the current view. Tied to the crate by running all two-stage chains and sampled three-stage chains of the real adapters with taps between the stages.",
+    level_text="Coq theorems: if two stages satisfy the one-step correctness statement then so does their composition (the lower stage's guarantee that every emitted diff is applicable to its view is the upper stage's input guard), for limit changes of either stage, for chains of any length by iteration (stated for three), lifted to whole histories; and into_parts of Head/Tail/Skip returns the current view. Tied to the crate by running all two-stage chains and sampled three-stage chains of the real adapters with taps between the stages, and 1-2 stage stacks end to end on a real ObservableVector subscriber (oracle-only stream).",
     level_note="Trusted: as C09. Known finding F4 (tail_shrink_over_len) is inherited and reported as KNOWN-FINDING; F7 (into_parts handed the source copy) was repaired in 8c08ab1.")
 
 
@@ -445,7 +474,7 @@ def c16_streams(tier, rng):
     orc = {"spec", "wake"}
     aorc = {"aspec", "alive"}
     na = 8000 if q else 200000
-    gl = [(4, 1), (3, 2)] if q else [(6, 1), (5, 2)]
+    gl = [(3, 1), (3, 2)] if q else [(5, 1), (4, 2)]
     gcases = []
     for (l, k) in gl:
         gcases += gens.aobs_exhaustive(l, k)
@@ -456,9 +485,9 @@ def c16_streams(tier, rng):
         Stream("random", "obs", gens.obs_random(rng, n, heads=AHEADS, counts=False), obs_nontriv, False,
                "%d seeded random histories of 10..40 calls on the async flavour" % n, obs_hist, oracles=orc),
         Stream("guarded-exhaustive", "aobs", gcases, aobs_nontriv, True,
-               "every history of <= %s calls (1 / 2 subscribers) over write().await / read().await guards kept across calls, set, get, next, next_ref, next_now, Stream polling, set through a held guard, dropping a held guard; every call is a future with its own counting waker, re-polled by the executor (smallest id first) whenever its waker fired; guards still held are dropped at the end" % " / ".join(str(l) for l, _ in gl),
+               "every history of <= %s calls (1 / 2 subscribers) over write().await / read().await guards kept across calls, set, set_if_not_eq, set_if_hash_not_eq, take, update, update_if, get, next, next_ref, next_now, Stream polling, set through a held guard, dropping a held guard; every call is a future with its own counting waker, re-polled by the executor (smallest id first) whenever its waker fired; guards still held are dropped at the end" % " / ".join(str(l) for l, _ in gl),
                aobs_hist, oracles=aorc),
-        Stream("guarded-sandwich", "aobs", gens.aobs_sandwich(1) + (gens.aobs_sandwich(2) if not q else []), aobs_nontriv, True,
+        Stream("guarded-sandwich", "aobs", gens.aobs_sandwich(1, q) + (gens.aobs_sandwich(2, q) if not q else []), aobs_nontriv, True,
                "write ; X ; Y ; set through the guard ; drop the guard ; Z ; W for all calls X Y Z W (two futures queued behind a held write guard in either order, then two follow-up calls)",
                aobs_hist, oracles=aorc),
         Stream("guarded-random", "aobs", gens.aobs_random(rng, na), aobs_nontriv, False,
